@@ -4,7 +4,7 @@ set -e
 cd "$(dirname "$0")"
 export GOFLAGS=-mod=mod GOPROXY=off GOTOOLCHAIN=auto
 unset GOSUMDB || true
-( cd coq && coq_makefile -f _CoqProject -o Makefile && timeout 3000 make -j16 ) > /tmp/verif-setup-coq.log 2>&1 || { tail -30 /tmp/verif-setup-coq.log; exit 1; }
+( cd coq && ./mkproject.sh && timeout 3000 make -j16 ) > /tmp/verif-setup-coq.log 2>&1 || { tail -30 /tmp/verif-setup-coq.log; exit 1; }
 ( cd harness && mkdir -p bin && go build -tags verif -o bin/wharfobs ./cmd/wharfobs )
 if [ -d coq/extraction ]; then ( cd coq/extraction && [ ! -f build.sh ] || sh build.sh ); fi
 echo setup ok
